@@ -1321,17 +1321,24 @@ def _c09_item(cfg, res):
     offer(res, "c09", "c09", shape, shape, subs)
 
 
+class _ItemsCaptured(BaseException):
+    pass
+
+
 def capture_items(mod, ctx):
-    """the work items a harness' run() would hand to core.pmap"""
+    """the work items a harness' run() would hand to core.pmap (run() is
+    left at that point: what it does with the results is not executed)"""
     got = {}
 
     def fake_pmap(c, fn, items, chunk=None, *more, **kw):
         got["items"] = list(items)
-        return core.Result()
+        raise _ItemsCaptured()
     old = core.pmap
     core.pmap = fake_pmap
     try:
         mod.run(ctx)
+    except _ItemsCaptured:
+        pass
     finally:
         core.pmap = old
     if "items" not in got:
